@@ -83,16 +83,51 @@ instances! {
     c12_k1_other => kind_table(16);
 }
 
-// ---- id_of_path on real std::path parsing (thorough tier only: CBMC needs many minutes per call) ---------------------
-fn is_dir_false(_p: &std::path::Path) -> bool {
-    false
+// ---- id_of_path on real std::path parsing; `Path::is_dir` (a syscall) is replaced by the kind the harness fixes ----------
+static mut IS_DIR: bool = false;
+fn is_dir_stub(_p: &std::path::Path) -> bool {
+    unsafe { IS_DIR }
 }
+macro_rules! path_instances {
+    ($( $name:ident => $body:expr; )*) => { $(
+        #[kani::proof]
+        #[kani::unwind(12)]
+        #[kani::stub(std::path::Path::is_dir, is_dir_stub)]
+        pub(crate) fn $name() { $body }
+    )* };
+}
+/// expected event for a reported path (None = no event)
+fn id_case(path: &str, is_dir: bool, want: Option<(&str, Option<&str>)>) {
+    unsafe { IS_DIR = is_dir };
+    let mut ib = IdBuilder::default();
+    let r = id_of_path(&mut ib, std::path::Path::new("/r"), std::path::Path::new(path));
+    match (want, r) {
+        (None, None) => {}
+        (Some((id, Some(ext))), Some(OwnedDirEntry::File(i, e))) => assert!(&*i == id && &*e == ext, "C12 a file notification names exactly the entry whose path_of is that path (same id, same extension)"),
+        (Some((id, None)), Some(OwnedDirEntry::Directory(i))) => assert!(&*i == id, "C12 a directory notification names the directory with that id"),
+        (_, r) => {
+            std::mem::forget(r);
+            assert!(false, "C12 wrong kind of event / event for a path that has no id / no event for a valid entry");
+        }
+    }
+}
+path_instances! {
+    c12_k4_id_top_file => id_case("/r/a.x", false, Some(("a", Some("x"))));
+    c12_k4_id_nested_file => id_case("/r/d/e/a.x", false, Some(("d.e.a", Some("x"))));
+    c12_k4_id_no_extension => id_case("/r/d/a", false, Some(("d.a", Some(""))));
+    c12_k4_id_directory => id_case("/r/d/e", true, Some(("d.e", None)));
+    c12_k4_id_root => id_case("/r", true, Some(("", None)));
+    c12_k4_id_outside_root => id_case("/q/a.x", false, None);
+    c12_k4_id_dotted_stem => id_case("/r/d/a.b.x", false, None);
+    c12_k4_id_dotted_dir => id_case("/r/v1.2/a.x", false, None);
+    c12_k4_id_parent_component => id_case("/r/d/../a.x", false, Some(("a", Some("x"))));
+    c12_k4_id_cur_component => id_case("/r/./d/a.x", false, Some(("d.a", Some("x"))));
+}
+
 /// two consecutive calls sharing one IdBuilder (as the event handler does): an entry that is not expressible as an id
 /// (a '.' in its stem) produces no event and must not leak segments into the next id
-#[kani::proof]
-#[kani::unwind(12)]
-#[kani::stub(std::path::Path::is_dir, is_dir_false)]
-pub(crate) fn c12_k4_id_of_path_carry_over() {
+fn carry_over() {
+    unsafe { IS_DIR = false };
     let mut ib = IdBuilder::default();
     let root = std::path::Path::new("/r");
     let first = id_of_path(&mut ib, root, std::path::Path::new("/r/d/a.b.x"));
@@ -101,4 +136,34 @@ pub(crate) fn c12_k4_id_of_path_carry_over() {
         Some(OwnedDirEntry::File(id, ext)) => assert!(&*id == "d.c" && &*ext == "x", "C12 an event names exactly the entry whose path_of is that path (same id, same extension), whatever was processed before"),
         _ => assert!(false, "C12 a valid file under the root produces a file event"),
     }
+}
+/// id_of_path is the inverse of path_of_entry: forward map an entry to its path, map the path back
+fn round_trip(file: bool, nested: bool) {
+    unsafe { IS_DIR = !file };
+    let id = if nested { "d.e.a" } else { "a" };
+    let entry = if file { crate::source::DirEntry::File(id, "x") } else { crate::source::DirEntry::Directory(id) };
+    let root = std::path::Path::new("/r");
+    let p = crate::utils::path_of_entry(root, entry);
+    let want: &str = match (file, nested) { (true, true) => "/r/d/e/a.x", (true, false) => "/r/a.x", (false, true) => "/r/d/e/a", (false, false) => "/r/a" };
+    assert!(p.as_os_str() == want, "C04/C12 path_of maps an id to the path under the root (segments -> directories, extension appended)");
+    let mut ib = IdBuilder::default();
+    match id_of_path(&mut ib, root, &p) {
+        Some(o) => assert!(o.as_dir_entry() == entry, "C12 ids and paths round-trip: id_of_path(path_of(entry)) = entry"),
+        None => assert!(false, "C12 the path of a valid entry always maps back to an event"),
+    }
+}
+path_instances! {
+    c12_k4_carry_over => carry_over();
+    c12_k5_round_trip_file => round_trip(true, false);
+    c12_k5_round_trip_nested_file => round_trip(true, true);
+    c12_k5_round_trip_dir => round_trip(false, false);
+    c12_k5_round_trip_nested_dir => round_trip(false, true);
+}
+/// forward map alone for a file (PathBuf::set_extension is the expensive part)
+fn path_of_file() {
+    let p = crate::utils::path_of_entry(std::path::Path::new("/r"), crate::source::DirEntry::File("d.a", "x"));
+    assert!(p.as_os_str() == "/r/d/a.x", "C04/C12 path_of maps (id, ext) to root/segments.ext");
+}
+path_instances! {
+    c12_k5_path_of_file => path_of_file();
 }
